@@ -300,7 +300,19 @@ impl ObjectCore for StandaloneSuperCore {
 		super_depth: &mut SuperDepth,
 		handler: &mut EnumFieldsHandler<'_>,
 	) -> bool {
-		self.this.enum_fields_idx(super_depth, handler, self.sup)
+		// The layers below `sup` form a closed object: every field is reported with its
+		// resolved visibility. Forwarding the raw entries would let the key-removal markers
+		// of those layers mask fields of the layers this core is later combined with.
+		let this = &self.this;
+		let sup = self.sup;
+		this.enum_fields_idx(
+			super_depth,
+			&mut |depth, index, name, _| match this.field_visibility_idx(name.clone(), sup) {
+				Some(vis) => handler(depth, index, name, EnumFields::Normal(vis)),
+				None => ControlFlow::Continue(()),
+			},
+			sup,
+		)
 	}
 
 	fn has_field_include_hidden_core(&self, name: IStr) -> HasFieldIncludeHidden {
